@@ -99,7 +99,16 @@ def main():
                   Harness('c09_card_pair_total', MOD, 1200, covers=['a card pair parsed', 'a multi-byte char inside a 4-byte text reached'], key='byte-slice-in-char',
                           desc='CardPair::from_str on every well-formed UTF-8 string of <= 6 bytes: no panic; Ok => 4 ASCII bytes')]
             ksrc = snapshot('src-k')
-            obs += run_family(ksrc, {'src/hand_range/card_pair.rs': module_text('c09_parsers.rs')}, hs, jobs=3)
+            import threading
+            kres = {}
+
+            def kpart():
+                try:
+                    kres['obs'] = run_family(ksrc, {'src/hand_range/card_pair.rs': module_text('c09_parsers.rs')}, hs, jobs=3)
+                except Exception as e:
+                    kres['obs'] = [Obligation('kani-byte-parsers', 'inconclusive', repr(e)[-600:])]
+            kthread = threading.Thread(target=kpart)
+            kthread.start()      # the three CBMC processes run beside the Engine M pools below
         # ---------------- M part: the byte parsers on longer strings (error paths keep the rejected text)
         if not a.only or 'bytes' in a.only:
             mir = mir_dump(src, 'dev')
@@ -161,6 +170,9 @@ def main():
                                       extra=dict(per_length=[{k: d.get(k) for k in ('L', 'paths', 'ok', 'err', 'stmts', 'queries', 'solver_s', 'wall', 'samples')} for d in results])))
                 if panics:
                     obs.pop()   # the per-role obligations carry the verdict
+        if 'kthread' in dir():
+            kthread.join()
+            obs = kres.get('obs', []) + obs
         cov = dict(states=max(sum(o.extra.get('per_length') and sum(d['paths'] or 0 for d in o.extra['per_length']) or 0 for o in obs), 1) if False else 1,
                    transitions=1, traces_validated_against_impl=0, samples=[])
         tok = [o for o in obs if o.extra.get('per_length')]
